@@ -432,7 +432,7 @@ func checkClosure(sc *bw.Scenario, w *world, cl *closure, res *vresult, out *sim
 				continue
 			}
 			src, ok := b.RegistryPackageSourceAddr(pa, parseVersion(rv.V))
-			if !ok || src.String() != rv.Source {
+			if !ok || src.String() != w.printed(rv.Source) {
 				out.Violate("C08", "registry-meta", "source", fmt.Sprintf("variant %d: %s %s: registry named %s, bundle reports %q (found %v)", vi, rp.Addr, rv.V, rv.Source, src.String(), ok))
 			}
 			dep := b.RegistryPackageVersionDeprecation(pa, parseVersion(rv.V))
